@@ -154,9 +154,20 @@ func (info RecipientInfo) WriteTo(utf8 bool, w io.Writer) error {
 	if smtpErr, ok := info.DiagnosticCode.(*smtp.SMTPError); ok {
 		// Error message may contain newlines if it is received from another SMTP server.
 		// But we cannot directly insert CR/LF into Disagnostic-Code so rewrite it.
+		diagMsg := smtpErr.Message
+		if !utf8 {
+			// message/delivery-status fields are limited to ASCII (RFC 3464),
+			// only message/global-delivery-status can carry UTF-8.
+			diagMsg = strings.Map(func(ch rune) rune {
+				if ch >= 0x80 {
+					return '?'
+				}
+				return ch
+			}, diagMsg)
+		}
 		h.Add("Diagnostic-Code", fmt.Sprintf("smtp; %d %d.%d.%d %s",
 			smtpErr.Code, smtpErr.EnhancedCode[0], smtpErr.EnhancedCode[1], smtpErr.EnhancedCode[2],
-			strings.ReplaceAll(strings.ReplaceAll(smtpErr.Message, "\n", " "), "\r", " ")))
+			strings.ReplaceAll(strings.ReplaceAll(diagMsg, "\n", " "), "\r", " ")))
 	} else if utf8 {
 		// It might contain Unicode, so don't include it if we are not allowed to.
 		// ... I didn't bother implementing mangling logic to remove Unicode
